@@ -35,7 +35,7 @@ structure DSt where
 /-- the model's own neighbour lists must agree with the topology the real grid reported -/
 def topoAgrees (g : GridSpec) (st : St) : Bool :=
   match g with
-  | .none | .mesh _ => true
+  | .none | .mesh .. => true
   | _ => (List.range st.topo.n).all fun i =>
       let a := st.topo.nbrs i
       let idx := g.nbIdx i
